@@ -669,6 +669,21 @@ def r7_prescan_agrees_with_parser(ctx, res):
     r4_scan_equals_load(ctx, res)
 
 
+def r8_archive_members(ctx, res):
+    """the tar routes store what the other routes store only if the archive check refuses nothing a valid archive contains: a
+    member is refused exactly when it is neither a file nor a directory by TarInfo.isfile() / isdir() - which also accept the
+    regular-file type flags of old archives (AREGTYPE of V7 tars, CONTTYPE, GNU sparse) - or when its path is absolute or
+    contains `..`.  On the effect summary of project._check_tar: exactly these two ways out."""
+    from ..speccheck import view, expect
+    v = view(ctx, 'project', '_check_tar')
+    expect(res, 'archive-members:_check_tar', v, [
+        ('raise', "wn.Error(f'tarfile member is not a regular file or directory: {$1.name}')", ('not $1.isdir()', 'not $1.isfile()'),
+         ('for tar.getmembers()',)),
+        ('raise', "wn.Error(f'tarfile member paths may not be absolute or contain ..: {$1.name}')",
+         ('$1.isfile() or $1.isdir()', "$1.name.startswith('/') or '..' in $1.name"), ('for tar.getmembers()',)),
+    ], 'a tar member is refused exactly when it is neither file nor directory (TarInfo.isfile / isdir) or its path is absolute / contains ..')
+
+
 RULES = [
     ('C07-R1', r1_sibling_entry_points, 5),
     ('C07-R2', r2_skip_dominance, 2),
@@ -677,4 +692,5 @@ RULES = [
     ('C07-R5', r5_per_item_state, 2),
     ('C07-R6', r6_recognition_by_content, 7),
     ('C07-R7', r7_prescan_agrees_with_parser, 7),
+    ('C07-R8', r8_archive_members, 1),
 ]
